@@ -80,10 +80,36 @@ impl Monitor for C06 {
         // that were evicted live (lazy policies)
         let mut born_all: HashMap<(String, u64, u64), u64> = HashMap::new();
         let side = ctx.scratch.sub("c06-side");
+        // scripted interludes: a queue's LAST record in a file is an empty payload, the log
+        // rolls over through another queue, then both are truncated so that only that empty
+        // record could still pin the old file
+        let mut scripted: std::collections::VecDeque<Op> = std::collections::VecDeque::new();
+        let mut model = crate::ops::Model::new(key);
         for _ in 0..nops {
             let cur_begin = cur;
             let before_unlinks = d.io.unlinks;
-            let st = d.step();
+            if scripted.is_empty() && d.gen.st.len() >= 2 && rng.chance(1, 30) {
+                let names: Vec<String> = d.gen.st.keys().cloned().collect();
+                let q = names[0].clone();
+                let f = names[1].clone();
+                let qn = d.gen.st[&q].next;
+                let fnx = d.gen.st[&f].next;
+                let big = (d.file_size as usize) * 3 / 5;
+                scripted.push_back(Op::Append { q: q.clone(), pos: None, lens: vec![rng.usize(1, 2000), 0], chained: false });
+                scripted.push_back(Op::Append { q: f.clone(), pos: None, lens: vec![big], chained: false });
+                scripted.push_back(Op::Append { q: f.clone(), pos: None, lens: vec![big], chained: false });
+                scripted.push_back(Op::Append { q: q.clone(), pos: None, lens: vec![rng.usize(1, 2000)], chained: false });
+                scripted.push_back(Op::Truncate { q: f.clone(), pos: fnx + 1 });
+                scripted.push_back(Op::Truncate { q: q.clone(), pos: qn + 1 });
+                acc.count("scripted_interludes_empty_record_last_in_its_file");
+            }
+            let st = if let Some(op) = scripted.pop_front() {
+                d.gen.note_external(&op);
+                d.apply(op)
+            } else {
+                d.step()
+            };
+            model.apply(st.k, &st.op);
             if st.outcome.is_io_err() {
                 acc.inconclusive(format!("I/O error from a live call: {:?}", st.outcome));
                 return;
@@ -254,13 +280,10 @@ impl Monitor for C06 {
                 _ => continue,
             };
             // retained records from the public API
-            let snap = match Snapshot::take(d.sut.log()) {
-                Ok(s) => s,
-                Err(e) => {
-                    acc.inconclusive(format!("snapshot failed (C05 territory): {}", e));
-                    return;
-                }
-            };
+            // what is retained according to the sequential specification (C05's model run
+            // alongside), not according to the library's own read accessors: a record the
+            // library failed to evict must not justify the file it pins
+            let snap = model.snapshot();
             let mut min_born: Option<(u64, String, u64)> = None;
             let mut retained = 0u64;
             let mut unknown_born = false;
